@@ -98,6 +98,49 @@ theorem gammaShape_eval {ρ : String → ℝ} (hρ : PosEnv ρ) (f : Formula) (h
     rfl
   · cases h
 
+/-- a formula that syntactically vanishes at zero evaluates to 0 when the input is 0 -/
+theorem vanishesAtZero_eval (ρ : String → ℝ) (h0 : ρ "x" = 0) (f : Formula)
+    (h : f.vanishesAtZero = true) : f.eval ρ = 0 := by
+  induction f with
+  | atom a =>
+    simp only [Formula.vanishesAtZero, beq_iff_eq] at h
+    subst h; simpa [Formula.eval] using h0
+  | lit q => simp [Formula.vanishesAtZero] at h
+  | mul a b iha ihb =>
+    simp only [Formula.vanishesAtZero, Bool.or_eq_true] at h
+    rcases h with h | h
+    · simp [Formula.eval, iha h]
+    · simp [Formula.eval, ihb h]
+  | div a b iha _ =>
+    simp only [Formula.vanishesAtZero] at h
+    simp [Formula.eval, iha h]
+  | sub a b iha ihb =>
+    simp only [Formula.vanishesAtZero, Bool.and_eq_true] at h
+    simp [Formula.eval, iha h.1, ihb h.2]
+  | add a b iha ihb =>
+    simp only [Formula.vanishesAtZero, Bool.and_eq_true] at h
+    simp [Formula.eval, iha h.1, ihb h.2]
+  | sqrt a iha =>
+    simp only [Formula.vanishesAtZero] at h
+    simp [Formula.eval, iha h]
+  | pow a q iha =>
+    simp only [Formula.vanishesAtZero, Bool.and_eq_true, bne_iff_ne, ne_eq] at h
+    have hq : ((q : ℝ)) ≠ 0 := by exact_mod_cast h.2
+    simp [Formula.eval, iha h.1, Real.zero_rpow hq]
+
+/-- a γ-shaped formula whose `B` vanishes at zero gives γ(0) = 1 -/
+theorem gammaShape_eval_zero (ρ : String → ℝ) (h0 : ρ "x" = 0) (f : Formula)
+    (h : gammaShape f = true) (hz : gammaShapeZero f = true) : f.eval ρ = 1 := by
+  unfold gammaShape at h
+  split at h
+  · rename_i a b B
+    simp only [Bool.and_eq_true, beq_iff_eq] at h
+    obtain ⟨⟨ha, hb⟩, _⟩ := h
+    subst ha hb
+    simp only [gammaShapeZero] at hz
+    simp [Formula.eval, vanishesAtZero_eval ρ h0 B hz]
+  · cases h
+
 /-- a formula of the velocity shape computes `c √(1 − 1/x²)` -/
 theorem velShape_eval {ρ : String → ℝ} (hρ : PosEnv ρ) (g : Formula) (h : velShape g = true) :
     g.eval ρ = lorentzVel (ρ "c.c") (ρ "x") := by
